@@ -39,7 +39,7 @@ func init() {
 			return []runner.Phase{
 				{Name: "sessions", Variant: "plain", Cases: n, Run: c03case, CaseTimeout: 90 * time.Second,
 					Required: []string{"op_query", "op_execute", "op_batch", "op_prepare", "op_startup", "op_register", "op_auth_response", "v1", "v2", "v3", "v4", "v5", "compressed_requests", "named_values", "unset_values", "payloads", "objects_executed_again"}},
-				{Name: "inexpressible", Variant: "plain", Cases: n / 20, Run: c03inexpr, CaseTimeout: 60 * time.Second, Required: []string{"inexpressible_requests"}},
+				{Name: "inexpressible", Variant: "plain", Cases: n / 20, Run: c03inexpr, CaseTimeout: 60 * time.Second, Required: []string{"inexpressible_requests", "payload_before_v4"}},
 				{Name: "limits", Variant: "plain", Cases: 10, Shards: 5, Run: c03limits, CaseTimeout: 5 * time.Minute, Required: []string{"limit_cases"}},
 			}
 		},
@@ -942,7 +942,7 @@ func c03inexpr(c *runner.Ctx, i int) {
 	}
 	defer sess.Close()
 	intT := &cqlref.Type{ID: cqlref.TInt}
-	kind := r.Intn(4)
+	kind := r.Intn(5)
 	stmt := fmt.Sprintf("INSERT INTO verif.t (a,b) VALUES (?,?) /*X%d*/", i)
 	st.mu.Lock()
 	st.bind[stmt] = []*cqlref.Type{intT, intT}
@@ -994,6 +994,51 @@ func c03inexpr(c *runner.Ctx, i int) {
 		err := sess.ExecuteBatch(b)
 		if n := arrivals(cqlref.OpBatch); n > 0 || err == nil || len(cl.BadFrames) > 0 {
 			c.Violation("C03:inexpressible:batch-on-v1", fmt.Sprintf("BATCH on protocol 1: %d frames, %d rejected, err %v", n, len(cl.BadFrames), err), wit)
+		}
+	case 4: // a custom payload before protocol 4 (the header flag and the payload map exist from v4)
+		if version >= 4 {
+			return
+		}
+		op := []string{"query", "execute", "batch"}[r.Intn(3)]
+		if version == 1 && op == "batch" {
+			op = "query"
+		}
+		payload := map[string][]byte{"k": []byte("v")}
+		refused := ""
+		func() {
+			defer func() {
+				if rec := recover(); rec != nil {
+					refused = fmt.Sprintf("panic: %v", rec) // gocql refuses this by panicking in the caller; nothing is sent
+				}
+			}()
+			var err error
+			switch op {
+			case "query":
+				err = sess.Query(fmt.Sprintf("UPDATE verif.t SET x=1 /*P%d*/", i)).CustomPayload(payload).Exec()
+			case "execute":
+				err = sess.Query(stmt, 1, 2).CustomPayload(payload).Exec()
+			default:
+				b := sess.NewBatch(gocql.LoggedBatch)
+				b.Query("UPDATE verif.t SET x=2")
+				b.CustomPayload = payload
+				err = sess.ExecuteBatch(b)
+			}
+			if err != nil {
+				refused = err.Error()
+			}
+		}()
+		c.Add("payload_before_v4", 1)
+		flagged := 0
+		for _, sc := range cl.AllConns() {
+			for _, rq := range sc.AllRequests() {
+				if rq.Header.Flags&cqlref.FlagPayload != 0 {
+					flagged++
+				}
+			}
+		}
+		if flagged > 0 || len(cl.BadFrames) > 0 {
+			c.Violation(fmt.Sprintf("C03:inexpressible:custom-payload-before-v4:v%d", version), fmt.Sprintf("a %s with a custom payload on protocol %d put %d frames with the custom-payload header flag on the wire (%d rejected by the spec decoder); the call ended with %q", op, version, flagged, len(cl.BadFrames), refused), wit)
+			return
 		}
 	case 3: // named values on protocol 2 (names exist from v3)
 		if version != 2 {
